@@ -130,6 +130,7 @@ fn it_keys_values(sh: Shape) {
 }
 harness!(it_keys_values__s8_4a, it_keys_values, S8_4A);
 harness!(it_keys_values__s8_8g4, it_keys_values, S8_8G4);
+harness!(it_keys_values__s8m0_4a, it_keys_values, S8M0_4A);
 
 fn it_iter_mut(sh: Shape) {
     let mut m = build_kv(sh, 1);
@@ -172,6 +173,7 @@ fn it_iter_mut(sh: Shape) {
 harness!(it_iter_mut__s8_4a, it_iter_mut, S8_4A);
 harness!(it_iter_mut__s8_8g4, it_iter_mut, S8_8G4);
 harness!(it_iter_mut__u8_3t, it_iter_mut, U8_3T);
+harness!(it_iter_mut__s8m0_4a, it_iter_mut, S8M0_4A);
 
 fn it_values_mut(sh: Shape) {
     let mut m = build_kv(sh, 1);
@@ -247,6 +249,8 @@ harness!(it_into_iter__s8_4a_j2, it_into_iter, S8_4A, 2);
 harness!(it_into_iter__s8_4a_j3, it_into_iter, S8_4A, 3);
 harness!(it_into_iter__s8_4a_end, it_into_iter, S8_4A, END);
 harness!(it_into_iter__s8_8g4_j1, it_into_iter, S8_8G4, 1);
+harness!(it_into_iter__s8m0_4a_j1, it_into_iter, S8M0_4A, 1);
+harness!(it_into_iter__s8m0_4a_end, it_into_iter, S8M0_4A, END);
 harness!(it_into_iter__s8_8g4_j2, it_into_iter, S8_8G4, 2);
 harness!(it_into_iter__s8_8g4_end, it_into_iter, S8_8G4, END);
 harness!(it_into_iter__u8_3t_j1, it_into_iter, U8_3T, 1);
